@@ -18,19 +18,19 @@ class Profile:
 
 BASIC = Profile(new=10, edit_refresh=10, push=10, pop=10, goto=6, float=6, sink=6, delete=4, hide=3, unhide=3,
                 rename=3, commit=3, uncommit=2, clean=2, undo=5, redo=3, reset=2, inspect=2, repair=1,
-                gcommit=1, greset=1, gamend=1, spill=1, logclear=0.3, invalid=4)
+                gcommit=1, greset=1, gamend=1, spill=1, logclear=0.3, invalid=4, edit_msg=3, rebase=1.5, hidden_ops=2)
 REORDER = Profile(new=6, edit_refresh=8, push=14, pop=12, goto=8, float=10, sink=10, delete=5, hide=4, unhide=4,
-                  commit=4, rename=1, undo=2, invalid=2, upstream=3)
+                  commit=4, rename=1, undo=2, invalid=2, upstream=3, edit_msg=3, rebase=2, hidden_ops=3, conflict_reorder=3, sink_mixed=4)
 UNDO = Profile(new=6, edit_refresh=6, push=8, pop=8, float=3, sink=3, delete=3, hide=2, unhide=2, rename=2,
-               undo=14, redo=10, reset=6, gcommit=1.5, commit=1, invalid=1, extmods=2)
+               undo=14, redo=10, reset=6, gcommit=1.5, commit=1, invalid=1, extmods=2, edit_msg=3, rebase=1, redo_chain=3, extmods_fail=2)
 REPAIR = Profile(new=8, edit_refresh=8, push=5, pop=6, delete=2, hide=2, repair=10, gcommit=8, gamend=4, greset=9,
-                 gmerge=1, undo=1, commit=1, uncommit=1, inspect=1, twin_commits=3)
+                 gmerge=1, undo=1, commit=1, uncommit=1, inspect=1, twin_commits=3, repair_from_empty=3, extmods_fail=4, reset=2)
 COMMIT = Profile(new=10, edit_refresh=8, push=6, pop=6, commit=12, uncommit=10, float=3, sink=3, undo=3, redo=2,
-                 gcommit=3, delete=2, hide=2, goto=2, repair=1, invalid=1)
+                 gcommit=3, delete=2, hide=2, goto=2, repair=1, invalid=1, edit_msg=2, rebase=3)
 DIRTY = Profile(new=8, edit_refresh=6, dirty_edit=14, push=10, pop=10, goto=6, float=5, sink=5, delete=4, hide=2,
-                unhide=1, commit=2, undo=4, redo=2, reset=1, rename=1, clean=1, repair=1)
+                unhide=1, commit=2, undo=4, redo=2, reset=1, rename=1, clean=1, repair=1, edit_msg=1, rebase=2)
 BIG = Profile(new=30, edit_refresh=6, push=6, pop=10, hide=8, unhide=3, delete=2, float=3, sink=3, undo=3, redo=1,
-              rename=2)
+              rename=2, big_clear=2)
 
 
 class Chooser:
@@ -133,8 +133,11 @@ class Chooser:
         if npatches < 3:
             kinds = [(k, (w * 4 if k == "new" else w)) for k, w in kinds]
         if view["unmerged"]:
+            # (a work-tree edit while the index is unmerged resolves the conflict in the real
+            # repository; the clean model has no such operation: no macro that edits runs now)
             kinds = [(k, w) for k, w in kinds if k not in ("edit_refresh", "dirty_edit", "gcommit", "gamend", "gmerge",
-                                                            "greset")]
+                                                            "greset", "upstream", "extmods", "twin_commits",
+                                                            "conflict_reorder", "repair_from_empty", "extmods_fail")]
         total = sum(w for _, w in kinds)
         x = rng.random() * total
         for kind, w in kinds:
@@ -142,7 +145,7 @@ class Chooser:
             if x <= 0:
                 break
         if kind == "new":
-            if rng.random() < 0.75:
+            if rng.random() < 0.75 and not view["unmerged"]:
                 self.pending = [self.edit_cmd(view), {"c": "refresh"}]
             return {"c": "new", "name": self.fresh_name(view), "meta": self.next_meta()}
         if kind == "edit_refresh":
@@ -235,7 +238,7 @@ class Chooser:
                 c["flags"].append("merged")
             return c
         if kind == "float":
-            c = {"c": "float", "ranges": self.range_args(A + U, view), "flags": []}
+            c = {"c": "float", "ranges": self.range_args(A + U if (rng.random() < 0.85 or not H) else H, view), "flags": []}
             if "dirty_edit" in self.p.w and rng.random() < 0.6:
                 c["flags"].append("keep")
             if rng.random() < 0.15:
@@ -244,7 +247,7 @@ class Chooser:
         if kind == "sink":
             c = {"c": "sink", "flags": []}
             if rng.random() < 0.8:
-                c["ranges"] = self.range_args(A + U if rng.random() < 0.9 else H, view)
+                c["ranges"] = self.range_args(A + U if (rng.random() < 0.75 or not H) else H, view)
             if A and rng.random() < 0.6:
                 c["target"] = rng.choice(A)
                 c["above"] = rng.random() < 0.4
@@ -322,6 +325,26 @@ class Chooser:
             return {"c": "repair"}
         if kind == "logclear":
             return {"c": "logclear"}
+        if kind == "repair_from_empty":
+            allp = A + U + H
+            if not allp:
+                return {"c": "new", "name": self.fresh_name(view), "meta": self.next_meta()}
+            seq = []
+            if A:
+                seq.append({"c": "pop", "flags": ["all"]})
+            seq += [{"c": "greset", "kind": "patch", "arg": rng.choice(allp)}, {"c": "repair"}, {"c": "inspect", "argv": ["series"]}]
+            self.pending = seq[1:]
+            return seq[0]
+        if kind == "big_clear":
+            # a state commit that has to reference many commits the previous state does not hold
+            seq = []
+            if A:
+                seq.append({"c": "pop", "flags": ["all"]})
+            if U and rng.random() < 0.5:
+                seq.append({"c": "hide", "ranges": [U[-1]]})
+            seq += [{"c": "logclear"}, {"c": "inspect", "argv": ["series"]}]
+            self.pending = seq[1:]
+            return seq[0]
         if kind == "twin_commits":
             # two (or three) plain commits whose subjects derive the same patch name, then ONE repair
             subj = rng.choice(["wip", "Fix It", "tidy"])
@@ -332,6 +355,110 @@ class Chooser:
                 s2 = subj if j != 1 or rng.random() < 0.7 else "other " + subj
                 seq.append({"c": "gcommit", "meta": m, "subj": "%s\n\nx%d" % (s2, m)})
             seq.append({"c": "repair"})
+            self.pending = seq[1:]
+            return seq[0]
+        if kind == "conflict_reorder":
+            # a dependency chain a <- c on one cell with independent patches around it, then a
+            # reordering command that must re-push several patches, one of which conflicts while
+            # others are still waiting behind it
+            if view["unmerged"] or view["wt"] != view.get("branch_tree", view["wt"]):
+                return {"c": "inspect", "argv": ["series"]}
+            cell = rng.randrange(0, 3)
+            other = [x for x in range(3, 9) if x != cell]
+            cur = view["wt"][cell]
+            v1 = cur % 4 + 1
+            v2 = v1 % 4 + 1
+            na, nb, nc, nd = [self.fresh_name(view) for _ in range(4)]
+            names = []
+            for x in (na, nb, nc, nd):
+                while x in names:
+                    x = "g%d" % self.next_meta()
+                names.append(x)
+            na, nb, nc, nd = names
+            seq = [{"c": "new", "name": na, "meta": self.next_meta()}, {"c": "gedit", "cell": cell, "v": v1}, {"c": "refresh"},
+                   {"c": "new", "name": nb, "meta": self.next_meta()}, {"c": "gedit", "cell": other[0], "v": rng.randint(2, 4)}, {"c": "refresh"},
+                   {"c": "new", "name": nc, "meta": self.next_meta()}, {"c": "gedit", "cell": cell, "v": v2}, {"c": "refresh"},
+                   {"c": "new", "name": nd, "meta": self.next_meta()}, {"c": "gedit", "cell": other[1], "v": rng.randint(2, 4)}, {"c": "refresh"}]
+            k = rng.random()
+            if k < 0.3:
+                seq.append({"c": "pop", "flags": [], "ranges": [na]})
+            elif k < 0.55:
+                seq.append({"c": "float", "flags": [], "ranges": [na]})
+            elif k < 0.75:
+                seq.append({"c": "sink", "flags": [], "ranges": [nc], "target": na, "above": False})
+            elif k < 0.9:
+                seq.append({"c": "delete", "flags": [], "ranges": [na]})
+            else:
+                seq.append({"c": "commit", "flags": [], "ranges": [nc]})
+            seq += [{"c": "inspect", "argv": ["series"]}, {"c": "undo", "flags": ["hard"]}]
+            self.pending = seq[1:]
+            return seq[0]
+        if kind == "sink_mixed":
+            # sink --to / --above a target in the middle, naming patches from BOTH sides of it
+            if len(A) < 4:
+                return {"c": "new", "name": self.fresh_name(view), "meta": self.next_meta()}
+            ti = rng.randrange(1, len(A))                      # may be the topmost patch
+            below = rng.sample(A[:ti], rng.randint(1, min(2, ti)))
+            above = rng.sample(A[ti + 1:], rng.randint(0, min(2, len(A) - ti - 1))) if ti + 1 < len(A) else []
+            picks = below + above
+            rng.shuffle(picks)
+            c = {"c": "sink", "flags": [], "ranges": picks, "target": A[ti], "above": rng.random() < 0.4}
+            if rng.random() < 0.25:
+                c["flags"].append("nopush")
+            return c
+        if kind == "hidden_ops":
+            # commands that take a patch straight out of the hidden list
+            seq = []
+            h = None
+            if H:
+                h = rng.choice(H)
+            elif A + U:
+                h = rng.choice(U or A)
+                if h in A:
+                    seq.append({"c": "pop", "flags": [], "ranges": [h]})
+                seq.append({"c": "hide", "ranges": [h]})
+            if h is None:
+                return {"c": "new", "name": self.fresh_name(view), "meta": self.next_meta()}
+            k = rng.random()
+            if k < 0.35:
+                seq.append({"c": "sink", "flags": [], "ranges": [h]})
+            elif k < 0.5 and A:
+                seq.append({"c": "sink", "flags": [], "ranges": [h], "target": rng.choice(A), "above": rng.random() < 0.5})
+            elif k < 0.75:
+                seq.append({"c": "float", "flags": [], "ranges": [h]})
+            elif k < 0.85:
+                seq.append({"c": "goto", "flags": [], "loc": h})
+            else:
+                seq.append({"c": "push", "flags": [], "ranges": [h]})
+            seq.append({"c": "pop", "flags": []})
+            self.pending = seq[1:]
+            return seq[0]
+        if kind == "redo_chain":
+            # several undos, a redo of more than one step, then further single redos / undos:
+            # later redos have to account for the `redo k` entries already in the log
+            k = rng.choice([3, 3, 4, 5])
+            seq = [{"c": "undo", "flags": []} for _ in range(k)] if rng.random() < 0.6 else \
+                [{"c": "undo", "n": k, "flags": []}]
+            j = rng.choice([2, 2, 3])
+            seq += [{"c": "redo", "n": j, "flags": []}, {"c": "redo", "flags": []}]
+            if rng.random() < 0.5:
+                seq += [{"c": "undo", "flags": []}, {"c": "redo", "n": 2, "flags": []}, {"c": "redo", "flags": []}]
+            self.pending = seq[1:]
+            return seq[0]
+        if kind == "extmods_fail":
+            # the branch moved by plain git, then a command that FAILS inside its transaction
+            # (a partial reset naming a patch the entry does not have): nothing may be recorded
+            m = self.next_meta()
+            seq = [self.edit_cmd(view), {"c": "gcommit", "meta": m, "subj": "x%d external" % m}]
+            ent = rng.randint(1, max(1, min(view["log_len"] - 1, 4)))
+            k = rng.random()
+            if k < 0.6:
+                seq.append({"c": "reset", "entry": ent, "flags": [], "ranges": self.pick_some(A + U + H, 1) + ["nosuch"]})
+            elif k < 0.8:
+                seq.append({"c": "reset", "entry": ent, "flags": [], "ranges": ["nosuch"]})
+            else:
+                seq.append({"c": "reset", "entry": 60, "flags": []})
+            seq.append({"c": "inspect", "argv": ["series"]})
             self.pending = seq[1:]
             return seq[0]
         if kind == "extmods":
@@ -370,6 +497,26 @@ class Chooser:
             if k < 0.85:
                 return {"c": "greset", "kind": "base", "arg": rng.choice([0, 0, 1])}
             return {"c": "greset", "kind": "head", "arg": rng.choice([0, 1, 2])}
+        if kind == "edit_msg":
+            allp = A + U + H
+            k = rng.random()
+            last = getattr(self, "last_edit", None)
+            if last is not None and k < 0.15:
+                return dict(last)                                   # the same edit again: nothing changes
+            if k < 0.3 or not allp:
+                c = {"c": "edit", "meta": self.next_meta()}         # the top patch
+            else:
+                c = {"c": "edit", "loc": rng.choice(allp), "meta": self.next_meta()}
+            self.last_edit = c
+            return dict(c)
+        if kind == "rebase":
+            k = rng.random()
+            allp = A + U
+            if allp and k < 0.35:
+                return {"c": "rebase", "kind": "patch", "arg": rng.choice(allp)}
+            if k < 0.8:
+                return {"c": "rebase", "kind": "base", "arg": rng.choice([0, 1, 1, 2])}
+            return {"c": "rebase", "kind": "head", "arg": rng.choice([0, 1, 2])}
         if kind == "invalid":
             k = rng.random()
             if k < 0.3:
